@@ -504,3 +504,26 @@ def agg_sites(body, adt_pat, variant=None):
                 and path_matches(norm(s['rv']['adt']), adt_pat) and (variant is None or s['rv'].get('variant') == variant):
             out.append(site)
     return out
+
+
+def user_local_of(body, op):
+    """Follow a move/copy/ref chain of single-def temporaries to a user-named local."""
+    p = op.get('m') or op.get('c')
+    for _ in range(8):
+        if p is None:
+            return None
+        if body.locals[p[0]]['user'] and all(x == '*' for x in p[1:]):
+            return body.local_name(p[0])
+        if len(p) != 1 and not all(x == '*' for x in p[1:]):
+            return None
+        ds = body.whole_defs(p[0])
+        if len(ds) != 1 or ds[0][1].get('s') != 'assign':
+            return None
+        rv = ds[0][1]['rv']
+        if rv['r'] == 'use':
+            p = rv['o'].get('m') or rv['o'].get('c')
+        elif rv['r'] == 'ref':
+            p = rv['p']
+        else:
+            return None
+    return None
